@@ -47,6 +47,7 @@ class Ctx:
         self.memo = {}
         self.subst = subst or {}   # var name -> RF  (substitution of inputs)
         self.trig = {}       # base key -> dict(c0=Fraction, S=idx, C=idx, base=LP)
+        self.trig_units = {}
         self.expo = {}
         self.sqrt_args = {}  # idx -> RF argument (for assumptions r >= 0, P >= 0)
         self.atan2s = {}
@@ -433,7 +434,10 @@ def prepare_trig(ctx, roots, extra_rf=()):
         for c in cs:
             num = gcd(num, int(c * den))
         c0 = Fraction(num, den) / getattr(ctx, "trig_unit_div", 1)
-        _new_trig(ctx, key, prim, c0)
+        ctx.trig_units[key] = c0
+    # the pre-pass used placeholder atoms: forget everything derived from them
+    ctx.memo = {}
+    ctx.atan2s = {}
 
 
 def _new_trig(ctx, key, prim, c0):
@@ -579,7 +583,7 @@ def _call_rf(ctx, x, memo, pending):
             return RF(ctx.var_lp(i))
         info = ctx.trig.get(key)
         if info is None:
-            _new_trig(ctx, key, prim, abs(c))
+            _new_trig(ctx, key, prim, ctx.trig_units.get(key, abs(c)))
             info = ctx.trig[key]
         k = abs(c) / info["c0"]
         if k.denominator != 1:
@@ -673,6 +677,8 @@ def sqrt_rf(ctx, a, node):
     """RF for sqrt(a).  Constant squares fold; monomial squares of non-negative atoms give the monomial root;
     otherwise a new atom r >= 0 with r^2 = a, oriented (when possible) so that r stays a free Laurent atom."""
     if a.d is not None:
+        if (a.n - a.d).is_zero_mod():
+            return RF(ctx.const_lp(1))
         # sqrt(N/D) = sqrt(N*D)/D  for D > 0 is not assumed; keep opaque
         i = ctx.atom(("node", id(a) if node is None else node.id), "sqrt%d" % len(ctx.names))
         ctx.sqrt_args[i] = a
